@@ -264,6 +264,12 @@ Theorem C17_rfcomm_pn_validation_matches_source : rfcomm_pn_validation = [23; 32
 Proof. vm_compute. reflexivity. Qed.
 Print Assumptions C17_rfcomm_pn_validation_matches_source.
 
+(* avdtp.Stream: the media transport channel is forgotten on every close of that channel, so
+   that a Close / Abort arriving afterwards (teardown out of order) finds nothing to wait for *)
+Theorem C17_avdtp_channel_close_matches_source : avdtp_channel_close_shape = [1; 0; 1; 1; 1].
+Proof. vm_compute. reflexivity. Qed.
+Print Assumptions C17_avdtp_channel_close_matches_source.
+
 Theorem C17_credit_based_validation_matches_source : credit_based_validation = [23; 23; 1; 1; 1; 1].
 Proof. vm_compute. reflexivity. Qed.
 Print Assumptions C17_credit_based_validation_matches_source.
